@@ -39,7 +39,10 @@ _T = bytes((i * 91 + 5) % 256 for i in range(100))
 
 
 @obligation(prop="C08", engine="smt", replay_fn=replay_xor,
-            examples=tuple({"key": _K, "text": _T[:n]} for n in (0, 1, 31, 32, 33, 63, 64, 65, 97)),
+            examples=tuple({"key": _K, "text": _T[:n]} for n in (0, 1, 31, 32, 33, 63, 64, 65, 97))
+            + ({"key": _K, "text": _K[:5]}, {"key": _K, "text": _K[:1] + b"rest"}, {"key": _K, "text": _K + _K[:3]},
+               {"key": _K, "text": b"\x00\x00abc"}, {"key": bytes(32), "text": b"\x00\x01"},
+               {"key": _K, "text": bytes(40)}),
             encodes=["cincoconfig.encryption.XorProvider.encrypt", "cincoconfig.encryption.XorProvider.decrypt"],
             budget={"quick": 120, "thorough": 900},
             what="XOR: for every 32-byte key and every text of length 0..N: out[i]=t[i]^k[i%32], len kept, "
